@@ -198,6 +198,17 @@ def run_c17(R, tier, rng):
               lambda: [kl(IV.any(axis=-1)), kl(IV.all(axis=-1)), kl(IV.any(axis=0))], py=f"m = RunLength2dArray.{itag}; m.any(axis=-1), m.all(axis=-1), m.any(axis=0)")
         C.cmp(f"intervals rows+ufunc {itag}", "intervals/rows-ufunc", ki >= 2, lambda: [kl(np.asarray(mi()[::-1].to_array()).astype(int)), kl(np.asarray((mi() * 3).to_array()).astype(int)), kl(np.asarray((mi() * 3).sum(axis=-1)))],
               lambda: [kl(IV[::-1]), kl(IV * 3), kl((IV * 3).sum(axis=-1))], py=f"m = RunLength2dArray.{itag}; m[::-1].to_array(), (m*3).to_array(), (m*3).sum(axis=-1)")
+        if t < 6:     # interval bounds given in narrow dtypes, the ends (and the row length) beyond the range of the starts' dtype
+            sdt = ["uint8", "int8", "int16", "uint16", "int32", "uint8"][t]; edt = ["int64", "int64", "int64", "uint16", "int64", "uint16"][t]
+            Ln = [400, 400, 40000, 70000, 400, 300][t]
+            stn = [0, 3, 10, 0, Ln - 1 if Ln - 1 <= np.iinfo(sdt).max else 100]; enn = [7, Ln - 100, 20, Ln, Ln]
+            def narrow():
+                x = RunLength2dArray.from_intervals(np.array(stn, dtype=sdt), np.array(enn, dtype=edt if Ln <= np.iinfo(edt).max else "int64"), Ln)
+                d = np.asarray(x.to_array(), dtype=bool)
+                return [list(d.shape), [[int(v) for v in np.flatnonzero(np.diff(np.concatenate([[0], r.astype(int), [0]])))] for r in d], kl(np.asarray(x.sum(axis=-1)))]
+            C.cmp(f"from_intervals {sdt} starts {stn} / {edt} ends {enn} / row length {Ln}", "intervals/narrow-bound-dtypes", True, narrow,
+                  lambda: [[len(stn), Ln], [[s0, e0] for s0, e0 in zip(stn, enn)], [e0 - s0 for s0, e0 in zip(stn, enn)]],
+                  py=f"x = RunLength2dArray.from_intervals(np.array({stn}, dtype='{sdt}'), np.array({enn}, dtype='{edt}'), {Ln}); x.to_array() (as [first, past-last] of the ones per row); x.sum(axis=-1)")
         L = rng.randint(1, 8); k = rng.randint(1, 4)
         st = [rng.randrange(0, L) for _ in range(k)]; en = [rng.randint(s0 + 1, L) for s0 in st]
         C.cmp(f"from_intervals {st} {en} {L}", "intervals", k >= 2, lambda: kl(np.asarray(RunLength2dArray.from_intervals(np.array(st), np.array(en), L).to_array(), dtype=bool)),
